@@ -335,8 +335,14 @@ Next ==
 (***************************************************************************)
 Done == phase = "done"
 
-Expected == CappedReport(G, WalkedOids, Cap32, Cap64)
-Truth    == TrueReport(G, WalkedOids)
+\* the oracle; with AbstractSizes a tree's object size is its entry count
+Truth ==
+  LET T == TrueReport(G, WalkedOids) IN
+  IF AbstractSizes
+  THEN LET Ts == OfKind(Reach(G, WalkedOids), "t")
+       IN  [T EXCEPT !.unique_tree_size = SumOver(Ts, [i \in Ts |-> TSize(G, i)])]
+  ELSE T
+Expected == [f \in NumericFields |-> Min(Truth[f], CapOf(f, Cap32, Cap64))]
 
 \* An object whose own size exceeds the 32-bit capacity is clamped before it
 \* enters a 64-bit total (git/batch_header.go:45, git/tree.go:23, ...): finding D1.
@@ -440,7 +446,8 @@ C08_WitnessAttains == Done =>
         LET o == WitnessOid(m) IN
         /\ o \in Reach(G, WalkedOids)
         /\ o[1] = WitnessKind(m)
-        /\ Min(MetricOf(G, m, o), CapOf(m, Cap32, Cap64)) = hist.n[m]
+        /\ \/ SizeClamped /\ m \in FieldsViaSize
+           \/ Min(MetricOf(G, m, o), CapOf(m, Cap32, Cap64)) = hist.n[m]
 
 C08_NoneCitesNothing == style = "none" => \A m \in WitnessMetrics : hist.w[m] = NoPath
 
